@@ -64,6 +64,7 @@ def case_text(case) -> str:
         res=case["res"],
         song=case.get("song"),
         sync=sync_lines(case.get("tempo") or [[0, 120000]]),
+        events=case.get("events"),
         tracks={case.get("header", HEADER): render_body(case["body"])},
     )
 
@@ -150,6 +151,7 @@ def multi_text(case) -> str:
         res=case["res"],
         song=case.get("song"),
         sync=sync_lines(case.get("tempo") or [[0, 120000]]),
+        events=case.get("events"),
         tracks={h: render_body(b) for h, b in case["tracks"]},
     )
 
